@@ -61,12 +61,15 @@ def main():
     pid = sys.argv[1]
     wt = "/tmp/mut-%s" % pid
     only = None
+    tag = ""
     a = sys.argv[2:]
     while a:
         if a[0] == "--wt":
             wt = a[1]; a = a[2:]
         elif a[0] == "--only":
             only = a[1]; a = a[2:]
+        elif a[0] == "--tag":
+            tag = a[1] + "-"; a = a[2:]
         else:
             a = a[1:]
     target = os.path.join(wt, "target")
@@ -85,7 +88,7 @@ def main():
         demo = re.split(r"\s{2,}\(|\s+#\s", demo)[0].strip()  # drop trailing free-text remarks
         # agents were told to use CARGO_TARGET_DIR=<wt>/target; make sure the command does
         demo_env = {"CARGO_TARGET_DIR": target}
-        rec = {"id": "%s-%s" % (pid, k), "property": pid, "demo_cmd": demo}
+        rec = {"id": "%s-%s%s" % (pid, tag, k), "property": pid, "demo_cmd": demo}
         sh("git checkout -- . ", wt)
         rc, out, dt = sh("git apply --check %s" % patch, wt)
         if rc != 0:
@@ -129,7 +132,7 @@ def main():
             rec["check_wall_s"] = round(dtc)
         sh("git checkout -- .", wt)
         if confirmed:
-            dest = os.path.join(VERIF, "seeded", "%s-%s" % (pid, k))
+            dest = os.path.join(VERIF, "seeded", "%s-%s%s" % (pid, tag, k))
             os.makedirs(dest, exist_ok=True)
             for f in os.listdir(d):
                 if os.path.isfile(os.path.join(d, f)):
@@ -144,7 +147,7 @@ def main():
             json.dump(meta, open(os.path.join(dest, "meta.json"), "w"), indent=1)
         results.append(rec)
         print(json.dumps(rec), flush=True)
-    json.dump(results, open(os.path.join(VERIF, "scratch", "eval_%s.json" % pid), "w"), indent=1)
+    json.dump(results, open(os.path.join(VERIF, "scratch", "eval_%s%s.json" % (tag, pid)), "w"), indent=1)
 
 
 if __name__ == "__main__":
